@@ -90,6 +90,11 @@ theorem cache_prefix_args_are_storage :
 follows local variables, key-returning helpers and helpers that pass a key parameter on). -/
 theorem all_store_keys_from_concatKey : unresolvedKeySites = [] := by decide
 
+/-- Every key field is one value written raw: no field is a variable assigned in several different ways (e.g. raw
+for short values, hashed for long ones) or a truncation of a value — such a field would map different logical
+parameters to the same field bytes, below the level the shape theorems speak about (generated facts). -/
+theorem fields_written_raw : ambiguousFields = [] := by decide
+
 /-- No package under `native/` other than `native/storage` imports a ledger store package. -/
 theorem no_direct_store_access : directStoreImports = [] := by decide
 
